@@ -152,6 +152,13 @@ Proof. str_A 14 true ctx14 ltac:(left). Qed.
 Lemma oracle_ctx16 : forall L o payload, valid (CLen 16 L o payload) -> oracle (CLen 16 L o payload) (C03.Model.run (CLen 16 L o payload)) = true.
 Proof. str_A 16 true ctx16 ltac:(left). Qed.
 
+Lemma oracle_ctx21 : forall L o payload, valid (CLen 21 L o payload) -> oracle (CLen 21 L o payload) (C03.Model.run (CLen 21 L o payload)) = true.
+Proof. str_A 21 true ctx21 ltac:(left). Qed.
+Lemma oracle_ctx22 : forall L o payload, valid (CLen 22 L o payload) -> oracle (CLen 22 L o payload) (C03.Model.run (CLen 22 L o payload)) = true.
+Proof. str_A 22 true ctx22 ltac:(left). Qed.
+Lemma oracle_ctx23 : forall L o payload, valid (CLen 23 L o payload) -> oracle (CLen 23 L o payload) (C03.Model.run (CLen 23 L o payload)) = true.
+Proof. str_A 23 true ctx23 ltac:(left). Qed.
+
 (* one depth lock needed *)
 Ltac str_B ctx utf8 lem lembad side :=
   intros L o payload Hv; valid_facts Hv;
@@ -441,26 +448,249 @@ Proof.
   unfold zlen in *. cbn [length]. lia.
 Qed.
 
+(* ---- Variant arrays of every element type, at every nesting ----------------------------------------------- *)
+Lemma varr_mask_facts ety (b : bool) : 0 <= ety < 64 ->
+  is_byte (varr_mask ety b) /\ Z.testbit (varr_mask ety b) 7 = true /\ varr_mask ety b mod 64 = ety.
+Proof.
+  intros H. assert (Hc : exists n, (n < 64)%nat /\ ety = Z.of_nat n) by (exists (Z.to_nat ety); lia).
+  destruct Hc as (n & Hn & ->). unfold varr_mask.
+  do 64 (destruct n as [|n]; [destruct b; vm_compute; repeat split; congruence|]). lia.
+Qed.
+
+Section VArrHeader.
+  Variables (o : opts) (d : nat) (m L : Z) (payload : bytes).
+  Hypothesis Hm : is_byte m.
+  Hypothesis Hbit : Z.testbit m 7 = true.
+  Hypothesis HL : in_i 4 L.
+
+  Lemma varr_neg : L < -1 -> run (dec_variant o d) (m :: enc_i 4 L ++ payload) = Err ENeg.
+  Proof.
+    intros H. rewrite dec_variant_eq. cbv zeta. rewrite run_bind, run_read_byte by exact Hm. rewrite Hbit.
+    rewrite run_bind, run_read_i by (try lia; exact HL). destruct (Z.ltb_spec L (-1)); [reflexivity|lia].
+  Qed.
+  Lemma varr_empty : -1 <= L <= 0 ->
+    run (dec_variant o d) (m :: enc_i 4 L ++ payload) =
+    if known_ty (m mod 64) then Ok (VArray (m mod 64) [] (Some []), payload) else Err EInvalid.
+  Proof.
+    intros H. rewrite dec_variant_eq. cbv zeta. rewrite run_bind, run_read_byte by exact Hm. rewrite Hbit.
+    rewrite run_bind, run_read_i by (try lia; exact HL). destruct (Z.ltb_spec L (-1)); [lia|].
+    destruct (Z.leb_spec L 0); [|lia]. destruct (known_ty (m mod 64)); reflexivity.
+  Qed.
+  (* the limit of a Variant array is max_array_length, for every element type, whatever follows and
+     whatever the string limits are *)
+  Lemma varr_over : 0 < L -> max_arr o < L -> run (dec_variant o d) (m :: enc_i 4 L ++ payload) = Err ELimit.
+  Proof.
+    intros H0 H. rewrite dec_variant_eq. cbv zeta. rewrite run_bind, run_read_byte by exact Hm. rewrite Hbit.
+    rewrite run_bind, run_read_i by (try lia; exact HL). destruct (Z.ltb_spec L (-1)); [lia|].
+    destruct (Z.leb_spec L 0); [lia|]. destruct (Z.ltb_spec (max_arr o) L); [reflexivity|lia].
+  Qed.
+End VArrHeader.
+
+(* a well-formed non-empty Variant array whose elements and dimension list are within the limits is
+   accepted iff its length is within max_array_length *)
+Lemma varr_accept_iff o d ty vals dims rest : offset_ns o = 0 -> wf_variant (VArray ty vals dims) -> vals <> [] ->
+  chk_list (chk_variant o d) vals = None ->
+  (match dims with Some ds => Z.of_nat (length ds) <= max_arr o | None => True end) ->
+  run (dec_variant o d) (enc_variant (VArray ty vals dims) ++ rest) =
+  if Z.of_nat (length vals) <=? max_arr o then Ok (norm_variant (VArray ty vals dims), rest) else Err ELimit.
+Proof.
+  intros Ho Hw Hne Hel Hd. unfold enc_variant. rewrite (proj2 (variant_law o Ho _)) by exact Hw.
+  destruct vals as [|x xs]; [contradiction|]. set (vals := x :: xs) in *.
+  assert (E : chk_variant o d (VArray ty vals dims) =
+                if max_arr o <? Z.of_nat (length vals) then Some ELimit
+                else seq_chk (chk_list (chk_variant o d) vals)
+                       (match dims with
+                        | Some ds => if max_arr o <? Z.of_nat (length ds) then Some ELimit else None
+                        | None => None end)).
+  { subst vals. cbn [chk_variant]. rewrite <- chk_first_list. reflexivity. }
+  rewrite E, Hel. cbn [seq_chk].
+  destruct (Z.ltb_spec (max_arr o) (Z.of_nat (length vals))); destruct (Z.leb_spec (Z.of_nat (length vals)) (max_arr o));
+    try lia; [reflexivity|].
+  destruct dims as [ds|]; [|reflexivity]. destruct (Z.ltb_spec (max_arr o) (Z.of_nat (length ds))); [lia|reflexivity].
+Qed.
+
+Lemma run_u4 a b c e rest : run (read_u 4) (a :: b :: c :: e :: rest) = Ok (a + 256 * (b + 256 * (c + 256 * e)), rest).
+Proof.
+  unfold read_u. rewrite run_bind. change (a :: b :: c :: e :: rest) with ([a; b; c; e] ++ rest).
+  rewrite (run_take_n 4) by reflexivity. rewrite run_ret. cbn [le_dec]. f_equal. f_equal. lia.
+Qed.
+
+(* the nestings: after the prefix the decoder is Variant::decode, and nothing is read after it *)
+Ltac ev0 :=
+  first
+  [ rewrite run_bind_omap | rewrite run_bind
+  | rewrite run_ret | rewrite run_fail | rewrite run_bump | rewrite run_alloc | rewrite run_lock
+  | rewrite run_u1 | rewrite run_u2 | rewrite run_u4 | rewrite run_i4
+  | progress compute_closed
+  | progress cbn [app dec_opt is_some fst snd negb andb orb omap] ].
+Ltac fin0 := match goal with |- same_shape _ (Codec.run ?m ?bs) =>
+  destruct (Codec.run m bs) as [[?x ?r]|?e|?p]; cbn [omap]; repeat (timeout 20 ev0); cbn [omap same_shape]; auto end.
+
+Local Opaque dec_variant.
+Lemma nest0 o d bs : same_shape (run (dec_ty TVar o d) bs) (run (dec_variant o d) bs).
+Proof. cbn [dec_ty]. rewrite run_bind_omap. fin0. Qed.
+Lemma nest1 o d bs : same_shape (run (dec_ty TDV o (S d)) (1 :: bs)) (run (dec_variant o d) bs).
+Proof.
+  cbn [dec_ty]. rewrite run_bind_omap. unfold dec_dv. rewrite run_lock. cbv iota. unfold dec_dv_fields.
+  repeat (timeout 20 ev0). fin0.
+Qed.
+Lemma nest1_bad o bs : rejected (run (dec_ty TDV o O) (1 :: bs)).
+Proof. cbn [dec_ty]. rewrite run_bind_omap. unfold dec_dv. rewrite run_lock. eexists; reflexivity. Qed.
+Lemma nest4 o d bs :
+  same_shape (run (dec_ty T_WriteValue o (S d)) (0 :: 0 :: 13 :: 0 :: 0 :: 0 :: 255 :: 255 :: 255 :: 255 :: 1 :: bs))
+             (run (dec_variant o d) bs).
+Proof.
+  unfold T_WriteValue. cbn [dec_ty]. unfold dec_scalar. repeat (timeout 20 ev0).
+  unfold dec_nodeid. repeat (timeout 20 ev0). unfold dec_nodeid_body. repeat (timeout 20 ev0).
+  unfold dec_str, dec_ustr. repeat (timeout 20 ev0).
+  unfold dec_dv. rewrite run_lock. cbv iota. unfold dec_dv_fields. repeat (timeout 20 ev0). fin0.
+Qed.
+Lemma nest4_bad o bs :
+  rejected (run (dec_ty T_WriteValue o O) (0 :: 0 :: 13 :: 0 :: 0 :: 0 :: 255 :: 255 :: 255 :: 255 :: 1 :: bs)).
+Proof.
+  unfold T_WriteValue. cbn [dec_ty]. unfold dec_scalar. repeat (timeout 20 ev0).
+  unfold dec_nodeid. repeat (timeout 20 ev0). unfold dec_nodeid_body. repeat (timeout 20 ev0).
+  unfold dec_str, dec_ustr. repeat (timeout 20 ev0).
+  unfold dec_dv. rewrite run_lock. repeat (timeout 20 ev0). eexists; reflexivity.
+Qed.
+Local Transparent dec_variant.
+
+(* the two nestings that start inside a Variant: unfold the outer Variant::decode only *)
+Lemma nest2 o d bs : same_shape (run (dec_ty TVar o (S d)) (24 :: bs)) (run (dec_variant o d) bs).
+Proof.
+  cbn [dec_ty]. rewrite run_bind_omap, dec_variant_eq. cbv zeta. rewrite run_bind, run_u1.
+  change (24 mod 64) with 24. change (Z.testbit 24 7) with false. change (Z.testbit 24 6) with false. cbv iota.
+  unfold dec_value. change (24 =? 0) with false. change (24 =? 24) with true. cbv iota.
+  rewrite run_bump, run_bind_omap.
+  destruct (run (dec_variant o d) bs) as [[x r]|e|p]; cbn [omap same_shape]; auto.
+Qed.
+Lemma nest2_bad o bs : rejected (run (dec_ty TVar o O) (24 :: bs)).
+Proof.
+  cbn [dec_ty]. rewrite run_bind_omap, dec_variant_eq. cbv zeta. rewrite run_bind, run_u1.
+  change (24 mod 64) with 24. change (Z.testbit 24 7) with false. change (Z.testbit 24 6) with false. cbv iota.
+  unfold dec_value. change (24 =? 0) with false. change (24 =? 24) with true. cbv iota.
+  rewrite run_fail. eexists; reflexivity.
+Qed.
+Lemma nest3 o d bs : same_shape (run (dec_ty TVar o (S d)) (23 :: 1 :: bs)) (run (dec_variant o d) bs).
+Proof.
+  cbn [dec_ty]. rewrite run_bind_omap, dec_variant_eq. cbv zeta. rewrite run_bind, run_u1.
+  change (23 mod 64) with 23. change (Z.testbit 23 7) with false. change (Z.testbit 23 6) with false. cbv iota.
+  unfold dec_value. change (23 =? 0) with false. change (23 =? 24) with false. change (23 =? 23) with true. cbv iota.
+  rewrite run_bump, run_bind_omap. unfold dec_dv_fields. rewrite run_bind, run_u1.
+  change (Z.testbit 1 0) with true. change (Z.testbit 1 1) with false. change (Z.testbit 1 2) with false.
+  change (Z.testbit 1 3) with false. change (Z.testbit 1 4) with false. change (Z.testbit 1 5) with false.
+  cbn [dec_opt]. rewrite run_bind, run_bind_omap.
+  destruct (run (dec_variant o d) bs) as [[x r]|e|p]; cbn [omap]; [|cbn [same_shape]; auto..].
+  repeat (rewrite run_bind, run_ret). rewrite run_ret. cbn [omap same_shape]. reflexivity.
+Qed.
+Lemma nest3_bad o bs : rejected (run (dec_ty TVar o O) (23 :: 1 :: bs)).
+Proof.
+  cbn [dec_ty]. rewrite run_bind_omap, dec_variant_eq. cbv zeta. rewrite run_bind, run_u1.
+  change (23 mod 64) with 23. change (Z.testbit 23 7) with false. change (Z.testbit 23 6) with false. cbv iota.
+  unfold dec_value. change (23 =? 0) with false. change (23 =? 24) with false. change (23 =? 23) with true. cbv iota.
+  rewrite run_fail. eexists; reflexivity.
+Qed.
+
+Lemma varr_out o d n ety b L payload : 0 <= ety < 64 -> in_i 4 L ->
+  let r := run (dec_variant o d) (varr_mask ety b :: enc_i 4 L ++ payload) in
+  (L < -1 -> outZ n r = [-1]) /\
+  (-1 <= L <= 0 -> outZ n r = if known_ty ety then [0; n - zlen payload] else [-1]) /\
+  (0 < L -> max_arr o < L -> outZ n r = [-1]).
+Proof.
+  intros He HL. destruct (varr_mask_facts ety b He) as (Hm & Hbit & Hmod). cbv zeta. repeat split; intros.
+  - rewrite varr_neg by assumption. reflexivity.
+  - rewrite varr_empty by assumption. rewrite Hmod. destruct (known_ty ety); reflexivity.
+  - rewrite varr_over by assumption. reflexivity.
+Qed.
+
+Lemma nest_ty_sane nest : ty_sane (snd (fst (nest_spec nest))).
+Proof.
+  unfold nest_spec. repeat match goal with |- context [if ?c then _ else _] => destruct c end; cbn [fst snd]; try exact I.
+  pose proof all_structs_sane as H. rewrite Forall_forall in H. apply H. vm_compute. auto 400.
+Qed.
+
+Lemma varr_no_panic nest ety b L o payload : 0 <= nest <= 4 -> 0 <= ety < 64 -> offset_ns o = 0 -> Forall is_byte payload ->
+  C03.Model.run (CVArr nest ety b L o payload) <> [-2].
+Proof.
+  intros Hn He Ho Hp.
+  change (C03.Model.run (CVArr nest ety b L o payload)) with
+    (outZ (zlen (case_bytes (CVArr nest ety b L o payload)))
+       (run (dec_ty (snd (fst (nest_spec nest))) o (depth0 o)) (case_bytes (CVArr nest ety b L o payload)))).
+  assert (Hb : byte_list (case_bytes (CVArr nest ety b L o payload))).
+  { cbn [case_bytes]. apply Forall_app. split.
+    - unfold nest_spec. repeat match goal with |- context [if ?c then _ else _] => destruct c end;
+        cbn [fst]; repeat constructor; unfold is_byte; lia.
+    - apply Forall_app. split; [repeat constructor; apply (varr_mask_facts ety b He)|].
+      apply Forall_app. split; [apply enc_i_bytes|exact Hp]. }
+  pose proof (decoded_wf_run o (depth0 o) _ _ Ho (nest_ty_sane nest) Hb) as H.
+  destruct (run (dec_ty (snd (fst (nest_spec nest))) o (depth0 o)) (case_bytes (CVArr nest ety b L o payload))) as [[v r]|e|p];
+    cbn [outZ]; [discriminate|discriminate|contradiction].
+Qed.
+
+Lemma oracle_varr nest ety b L o payload : valid (CVArr nest ety b L o payload) ->
+  oracle (CVArr nest ety b L o payload) (C03.Model.run (CVArr nest ety b L o payload)) = true.
+Proof.
+  intros Hv. pose proof Hv as (Hn & He & HL & Hp & Hpay). pose proof Hp as (Ho & Hd & _).
+  pose proof (in_i4_range L HL) as HLr.
+  pose proof (varr_no_panic nest ety b L o payload Hn He Ho Hpay) as Hnp.
+  (* the run as the outcome of Variant::decode at the length field, or a rejection for lack of depth *)
+  set (pre := fst (fst (nest_spec nest))). set (need := snd (nest_spec nest)).
+  assert (Hrun : (max_depth o <? need = true -> C03.Model.run (CVArr nest ety b L o payload) = [-1]) /\
+                 (max_depth o <? need = false -> exists d,
+                    C03.Model.run (CVArr nest ety b L o payload) =
+                    outZ (zlen pre + 5 + zlen payload)
+                         (run (dec_variant o d) (varr_mask ety b :: enc_i 4 L ++ payload)))).
+  { assert (Hz : zlen (case_bytes (CVArr nest ety b L o payload)) = zlen pre + 5 + zlen payload).
+    { cbn [case_bytes]. fold pre. unfold zlen. rewrite !app_length, enc_i_length. cbn [length]. lia. }
+    assert (Hc : nest = 0 \/ nest = 1 \/ nest = 2 \/ nest = 3 \/ nest = 4) by lia.
+    change (C03.Model.run (CVArr nest ety b L o payload)) with
+      (outZ (zlen (case_bytes (CVArr nest ety b L o payload)))
+         (run (dec_ty (snd (fst (nest_spec nest))) o (depth0 o)) (case_bytes (CVArr nest ety b L o payload)))).
+    rewrite Hz. cbn [case_bytes]. subst pre need.
+    destruct Hc as [-> | [-> | [-> | [-> | ->]]]]; cbn [nest_spec Z.eqb Pos.eqb fst snd app]; split; intros Hdep.
+    - apply Z.ltb_lt in Hdep. lia.
+    - exists (depth0 o). apply outZ_shape, nest0.
+    - apply Z.ltb_lt in Hdep. rewrite (depth0_O o) by lia. apply outZ_rejected, nest1_bad.
+    - apply Z.ltb_ge in Hdep. destruct (depth0_S o Hdep) as [d ->]. exists d. apply outZ_shape, nest1.
+    - apply Z.ltb_lt in Hdep. rewrite (depth0_O o) by lia. apply outZ_rejected, nest2_bad.
+    - apply Z.ltb_ge in Hdep. destruct (depth0_S o Hdep) as [d ->]. exists d. apply outZ_shape, nest2.
+    - apply Z.ltb_lt in Hdep. rewrite (depth0_O o) by lia. apply outZ_rejected, nest3_bad.
+    - apply Z.ltb_ge in Hdep. destruct (depth0_S o Hdep) as [d ->]. exists d. apply outZ_shape, nest3.
+    - apply Z.ltb_lt in Hdep. rewrite (depth0_O o) by lia. apply outZ_rejected, nest4_bad.
+    - apply Z.ltb_ge in Hdep. destruct (depth0_S o Hdep) as [d ->]. exists d. apply outZ_shape, nest4. }
+  destruct Hrun as [Hbad Hok]. unfold oracle. fold pre need.
+  destruct (max_depth o <? need) eqn:Hdep; [rewrite (Hbad eq_refl); reflexivity|].
+  destruct (Hok eq_refl) as [d Hr].
+  destruct (varr_out o d (zlen pre + 5 + zlen payload) ety b L payload He HL) as (H1 & H2 & H3).
+  destruct (Z.ltb_spec L (-1)); [rewrite Hr, H1 by lia; reflexivity|].
+  destruct (Z.leb_spec L 0).
+  { rewrite Hr, H2 by lia. destruct (known_ty ety); [|reflexivity]. apply list_eqb_true. f_equal. f_equal. lia. }
+  destruct (Z.ltb_spec (max_arr o) L); [rewrite Hr, H3 by lia; reflexivity|].
+  apply not_panic_ok, Hnp.
+Qed.
+
 (* ---- the oracle holds on the model, for every case ------------------------------------------------------------ *)
 Theorem oracle_holds c : valid c -> known c = 0 -> oracle c (C03.Model.run c) = true.
 Proof.
-  intros Hv _. destruct c as [t v o|ctx L o payload|o size body].
+  intros Hv _. destruct c as [t v o|ctx L o payload|o size body|nest ety b L o payload].
   - destruct Hv as [Hw Hpl]. apply oracle_val_case; assumption.
   - assert (Hc : ctx = 1 \/ ctx = 2 \/ ctx = 3 \/ ctx = 4 \/ ctx = 5 \/ ctx = 6 \/ ctx = 7 \/ ctx = 8 \/ ctx = 9 \/ ctx = 10
                  \/ ctx = 11 \/ ctx = 12 \/ ctx = 13 \/ ctx = 14 \/ ctx = 15 \/ ctx = 16 \/ ctx = 17 \/ ctx = 18
-                 \/ ctx = 19 \/ ctx = 20) by (destruct Hv as [Hctx _]; lia).
+                 \/ ctx = 19 \/ ctx = 20 \/ ctx = 21 \/ ctx = 22 \/ ctx = 23) by (destruct Hv as [Hctx _]; lia).
     repeat (destruct Hc as [->|Hc]); [..|subst ctx].
     + apply oracle_ctx1, Hv. + apply oracle_ctx2, Hv. + apply oracle_ctx3, Hv. + apply oracle_ctx4, Hv.
     + apply oracle_ctx5, Hv. + apply oracle_ctx6, Hv. + apply oracle_ctx7, Hv. + apply oracle_ctx8, Hv.
     + apply oracle_ctx9, Hv. + apply oracle_ctx10, Hv. + apply oracle_ctx11, Hv. + apply oracle_ctx12, Hv.
     + apply oracle_ctx13, Hv. + apply oracle_ctx14, Hv. + apply oracle_ctx15, Hv. + apply oracle_ctx16, Hv.
     + apply oracle_ctx17, Hv. + apply oracle_ctx18, Hv. + apply oracle_ctx19, Hv. + apply oracle_ctx20, Hv.
+    + apply oracle_ctx21, Hv. + apply oracle_ctx22, Hv. + apply oracle_ctx23, Hv.
   - destruct Hv as (Hs & _ & Hm). apply oracle_chunk_case; assumption.
+  - apply oracle_varr, Hv.
 Qed.
 
 Example oracle_example :
   valid (CLen 18 5 (mk_opts 65535 5 3 327675 10 0) [1; 2; 3; 4; 5; 9]) /\
-  valid (CLen 7 (-2) (mk_opts 65535 65535 0 327675 10 0) []).
+  valid (CVArr 4 3 true 4 (mk_opts 7 9 3 327675 10 0) [1; 2; 3; 4]).
 Proof.
   split; cbn; unfold plain, in_i, is_byte; cbn; repeat split; try lia; repeat constructor; lia.
 Qed.
